@@ -6,5 +6,5 @@ CONSTANTS
   V_Refresh = TRUE
   V_Resume = TRUE
   V_Faults = TRUE
-  V_InitCheckFirst = FALSE
+  V_InitCheckFirst = TRUE
 CHECK_DEADLOCK FALSE
